@@ -11,7 +11,7 @@ From Coq Require Import List NArith Arith Bool Lia String.
 From GV Require Import Base.Ints Gen.Math Gen.Kernel Model.Mirror
   Proofs.Thresholds Proofs.MirrorAuth Proofs.MirrorNoop Proofs.MirrorChain Proofs.MirrorCert
   Proofs.MirrorTotal Proofs.MirrorRestart Proofs.MirrorLog
-  Proofs.MirrorResumeLoad Proofs.MirrorResumeInv Proofs.MirrorResumeStart.
+  Proofs.MirrorResumeLoad Proofs.MirrorResumeInv Proofs.MirrorResumeStart Proofs.MirrorResumeAhead.
 Import ListNotations.
 Local Open Scope N_scope.
 Set Default Timeout 240.
@@ -23,10 +23,6 @@ Definition ends_hdr (ws : list wr) : bool :=
   match rev ws with WHdr _ _ :: _ => true | _ => false end.
 
 (** stores only move forward: no committed header is lost, the stored position does not regress *)
-Definition n_vh (x : N * N * N * N) : N := fst (fst (fst x)).
-Definition n_vr (x : N * N * N * N) : N := snd (fst (fst x)).
-Definition n_ch (x : N * N * N * N) : N := snd (fst x).
-Definition n_cr (x : N * N * N * N) : N := snd x.
 
 Definition sadv (a b : stores) : Prop :=
   (forall h x, In (h, x) (sr_hdrs a) -> In (h, x) (sr_hdrs b)) /\
@@ -57,16 +53,19 @@ Qed.
 
 Definition pref (ih : N) (ivs : valset) (s s' : kstate) : Prop :=
   exists ws, st_log s' = st_log s ++ ws /\ stores_of s' = fold_left apply_wr ws (stores_of s) /\
-    forall k, ends_hdr (firstn k ws) = false ->
-      SI ih ivs (fold_left apply_wr (firstn k ws) (stores_of s)) /\
-      sadv (stores_of s) (fold_left apply_wr (firstn k ws) (stores_of s)) /\
-      sadv (fold_left apply_wr (firstn k ws) (stores_of s)) (stores_of s').
+    forall k,
+      (ends_hdr (firstn k ws) = false ->
+       SI ih ivs (fold_left apply_wr (firstn k ws) (stores_of s)) /\
+       sadv (stores_of s) (fold_left apply_wr (firstn k ws) (stores_of s)) /\
+       sadv (fold_left apply_wr (firstn k ws) (stores_of s)) (stores_of s')) /\
+      (ends_hdr (firstn k ws) = true -> ahead_ok ih ivs (fold_left apply_wr (firstn k ws) (stores_of s))).
 
 Lemma pref_quiet ih ivs s s' : st_log s' = st_log s -> stores_of s' = stores_of s ->
   SI ih ivs (stores_of s) -> pref ih ivs s s'.
 Proof.
   intros L S H. exists []. rewrite app_nil_r. split; [exact L|]. split; [exact S|].
-  intros k _. rewrite firstn_nil. cbn [fold_left]. rewrite S. split; [exact H|]. split; apply sadv_refl.
+  intros k. rewrite firstn_nil. cbn [fold_left]. split; [|discriminate].
+  intros _. rewrite S. split; [exact H|]. split; apply sadv_refl.
 Qed.
 
 Lemma pref_refl ih ivs s : SI ih ivs (stores_of s) -> pref ih ivs s s.
@@ -74,25 +73,29 @@ Proof. apply pref_quiet; reflexivity. Qed.
 
 Lemma pref_one ih ivs s s' w :
   st_log s' = st_log s ++ [w] -> stores_of s' = apply_wr (stores_of s) w ->
-  SI ih ivs (stores_of s) -> SI ih ivs (stores_of s') -> sadv (stores_of s) (stores_of s') -> pref ih ivs s s'.
+  SI ih ivs (stores_of s) -> SI ih ivs (stores_of s') -> sadv (stores_of s) (stores_of s') ->
+  ends_hdr [w] = false -> pref ih ivs s s'.
 Proof.
-  intros L S H H' A. exists [w]. split; [exact L|]. split; [exact S|].
-  intros [|k] _; cbn [firstn fold_left].
-  - split; [exact H|]. split; [apply sadv_refl|exact A].
-  - rewrite firstn_nil. cbn [fold_left]. rewrite <- S. split; [exact H'|]. split; [exact A|apply sadv_refl].
+  intros L S H H' A Hw. exists [w]. split; [exact L|]. split; [exact S|].
+  intros [|k]; cbn [firstn fold_left].
+  - split; [|discriminate]. intros _. split; [exact H|]. split; [apply sadv_refl|exact A].
+  - rewrite firstn_nil. cbn [fold_left]. split; [|rewrite Hw; discriminate].
+    intros _. rewrite <- S. split; [exact H'|]. split; [exact A|apply sadv_refl].
 Qed.
 
 (** the commit: the committed-header write followed by the position write *)
 Lemma pref_commit ih ivs s s' h x nhr :
   st_log s' = (st_log s ++ [WHdr h x]) ++ [WNhr nhr] ->
   stores_of s' = apply_wr (apply_wr (stores_of s) (WHdr h x)) (WNhr nhr) ->
-  SI ih ivs (stores_of s) -> SI ih ivs (stores_of s') -> sadv (stores_of s) (stores_of s') -> pref ih ivs s s'.
+  SI ih ivs (stores_of s) -> SI ih ivs (stores_of s') -> sadv (stores_of s) (stores_of s') ->
+  n_ch (sr_nhr (stores_of s)) < h -> pref ih ivs s s'.
 Proof.
-  intros L S H H' A. exists [WHdr h x; WNhr nhr]. split; [rewrite L, <- app_assoc; reflexivity|]. split; [exact S|].
-  intros [|[|k]] E; cbn [firstn fold_left] in *.
-  - split; [exact H|]. split; [apply sadv_refl|exact A].
-  - discriminate E.
-  - rewrite firstn_nil. cbn [fold_left]. rewrite <- S. split; [exact H'|]. split; [exact A|apply sadv_refl].
+  intros L S H H' A Hlt. exists [WHdr h x; WNhr nhr]. split; [rewrite L, <- app_assoc; reflexivity|]. split; [exact S|].
+  intros [|[|k]]; cbn [firstn fold_left].
+  - split; [|discriminate]. intros _. split; [exact H|]. split; [apply sadv_refl|exact A].
+  - split; [discriminate|]. intros _. exists (stores_of s), h, x. split; [exact H|]. split; [exact Hlt|reflexivity].
+  - rewrite firstn_nil. cbn [fold_left]. split; [|discriminate].
+    intros _. rewrite <- S. split; [exact H'|]. split; [exact A|apply sadv_refl].
 Qed.
 
 Lemma ends_hdr_app a b : b <> [] -> ends_hdr (a ++ b) = ends_hdr b.
@@ -104,7 +107,8 @@ Qed.
 
 Lemma pref_ends ih ivs a b : pref ih ivs a b -> sadv (stores_of a) (stores_of b).
 Proof.
-  intros (w&L&S&P). destruct (P 0%nat) as (_&_&H); [reflexivity|]. cbn [firstn fold_left] in H. exact H.
+  intros (w&L&S&P). destruct (P 0%nat) as [P0 _]. destruct P0 as (_&_&H); [reflexivity|].
+  cbn [firstn fold_left] in H. exact H.
 Qed.
 
 Lemma pref_trans ih ivs a b c : pref ih ivs a b -> pref ih ivs b c -> pref ih ivs a c.
@@ -113,18 +117,22 @@ Proof.
   destruct Hab as (w1&L1&S1&P1). destruct Hbc as (w2&L2&S2&P2). exists (w1 ++ w2).
   split; [rewrite L2, L1, app_assoc; reflexivity|].
   split; [rewrite S2, S1, fold_left_app; reflexivity|].
-  intros k Hk. rewrite firstn_app in *.
+  intros k. rewrite firstn_app.
   destruct (firstn (k - List.length w1) w2) as [|x l] eqn:E.
-  - rewrite app_nil_r in *. destruct (P1 k Hk) as (Q1&Q2&Q3).
+  - rewrite app_nil_r. destruct (P1 k) as [Pc Pa]. split; [|exact Pa].
+    intros Hk. destruct (Pc Hk) as (Q1&Q2&Q3).
     split; [exact Q1|]. split; [exact Q2|eapply sadv_trans; eassumption].
   - assert (Hlen : (List.length w1 <= k)%nat).
     { destruct (Nat.le_gt_cases (List.length w1) k) as [Hle|Hgt]; [exact Hle|].
       replace (k - List.length w1)%nat with 0%nat in E by lia. discriminate E. }
-    rewrite (firstn_all2 w1) in * by exact Hlen.
-    rewrite fold_left_app, <- S1, <- E.
-    destruct (P2 (k - List.length w1)%nat) as (Q1&Q2&Q3).
-    { rewrite E. rewrite ends_hdr_app in Hk by discriminate. exact Hk. }
-    split; [exact Q1|]. split; [eapply sadv_trans; eassumption|exact Q3].
+    rewrite (firstn_all2 w1) by exact Hlen.
+    rewrite (ends_hdr_app w1 (x :: l)) by discriminate.
+    rewrite fold_left_app, <- S1.
+    destruct (P2 (k - List.length w1)%nat) as [Pc Pa]. rewrite E in Pc, Pa.
+    split.
+    + intros Hk. destruct (Pc Hk) as (Q1&Q2&Q3).
+      split; [exact Q1|]. split; [eapply sadv_trans; eassumption|exact Q3].
+    + exact Pa.
 Qed.
 
 (** * Round-store cells *)
@@ -236,7 +244,7 @@ Proof.
   assert (HX' : X ih ivs (update_observers (increment_voting_round s))) by (apply X_increment; [exact (proj1 HI)|exact HX]).
   split.
   - split; [apply INV_increment; exact HI|]. split; [apply pok_increment; exact HP|exact HX'].
-  - eapply pref_one; [reflexivity|reflexivity|exact (proj2 (proj2 (proj2 (proj2 HX))))|exact (proj2 (proj2 (proj2 (proj2 HX'))))|].
+  - eapply pref_one; [reflexivity|reflexivity|exact (proj2 (proj2 (proj2 (proj2 HX))))|exact (proj2 (proj2 (proj2 (proj2 HX'))))| |reflexivity].
     eapply adv_sadv; [exact (proj1 HI)|apply cinv_increment; exact (proj1 HI)|eapply adv_increment; exact (proj1 HI)].
 Qed.
 
@@ -285,6 +293,10 @@ Proof.
   destruct (shift_hdrs ih ivs s p Hc Hin) as (Hset&Hold&Ph&Hge&Hb).
   destruct (vot_vals ih ivs s Hc) as [Evv _].
   pose proof (cinv_nhr ih ivs s Hc) as Hnhr.
+  assert (Hcomlt : v_h (k_com s) < v_h (k_vot s)).
+  { destruct Hc as (_&_&Hi3&_&_&_&_&_&_&_&Hch). unfold chain_ok in Hch. destruct (k_chdr s) as [ch|].
+    - destruct Hch as (A&B&_). lia.
+    - destruct Hch as (A&_&_&D). lia. }
   assert (Hw : wrap64 (v_h (k_vot s) + 1) = v_h (k_vot s) + 1) by (unfold wrap64; apply N.mod_small; exact Hb).
   (* the voting view holds a precommit proof *)
   assert (Hpcne : v_pc (k_vot s) <> []).
@@ -351,7 +363,8 @@ Proof.
   apply (pref_commit ih ivs s _ (hd_height (ph_hdr p)) (ph_hdr p, pcp)
            (wrap64 (v_h (k_vot s) + 1), 0, v_h (k_vot s), v_r (k_vot s)));
     [reflexivity|reflexivity| |exact (proj2 (proj2 (proj2 (proj2 HX'))))|
-     eapply adv_sadv; [exact Hc|exact (proj1 HI')|eapply adv_shift; eassumption]].
+     eapply adv_sadv; [exact Hc|exact (proj1 HI')|eapply adv_shift; eassumption]|
+     unfold stores_of; cbn [sr_nhr]; rewrite Hnhr; unfold n_ch; cbn [fst snd]; rewrite Ph; exact Hcomlt].
   exists (v_h (k_vot s)), (v_r (k_vot s)), (v_h (k_com s)), (v_r (k_com s)).
   unfold stores_of. cbn [sr_nhr sr_hdrs sr_rounds sr_replayed].
   split; [exact Hnhr|]. repeat (split; [assumption|]). assumption.
@@ -434,7 +447,7 @@ Proof.
   split.
   - split; [eapply INV_frame_rounds; [exact F|reflexivity|reflexivity|reflexivity|exact HI]|].
     split; [exact HP|]. split; [exact Xc|]. split; [exact Xn|]. split; [exact X1|]. split; [exact Xk|exact HS'].
-  - eapply pref_one; [reflexivity|reflexivity|exact Xs|exact HS'|rewrite Es; apply sadv_refl].
+  - eapply pref_one; [reflexivity|reflexivity|exact Xs|exact HS'|rewrite Es; apply sadv_refl|reflexivity].
 Qed.
 
 (** * Clean restart and restart on any store satisfying [SI] *)
